@@ -100,7 +100,17 @@ def select(meta, prop, tier, seed, known):
     keys = sorted(strata.keys())
     rnd.shuffle(keys)
     picked, total = [], 0.0
-    # harnesses attached to known findings first (they must keep printing KNOWN-FINDING)
+    # change-aware: harnesses of instructions whose function body or registry binding differs from the
+    # recorded baseline (tools/baseline_fn_hashes.json, written from the repaired tree) are decided first,
+    # whatever their cost - the quick tier is the check run on every change
+    bpath = os.path.join(HERE, "baseline_fn_hashes.json")
+    if os.path.exists(bpath):
+        base = json.load(open(bpath))
+        for h in hs:
+            if h.get("fn_hash") and base.get(h.get("instruction")) != h["fn_hash"] and len(picked) < 40:
+                picked.append(h)
+                total += cost(h)
+    # harnesses attached to known findings next (they must keep printing KNOWN-FINDING)
     kf = [k for k in known.get("findings", []) if k["property"] == prop]
     for h in hs:
         for k in kf:
